@@ -142,7 +142,8 @@ func c06Exec(plan *Plan, st *Stats) *Violation {
 				}
 			}
 			for k := 0; k < 8; k++ {
-				arg := 0
+				// no options on display: the argument is not a choice, any value has to do
+				arg := junkArgs[(salt+k)%len(junkArgs)]
 				if lastResp != nil && lastResp.Kind == rOptions && len(lastResp.Opts) > 0 {
 					arg = (salt + k) % len(lastResp.Opts)
 				}
